@@ -180,6 +180,32 @@ func (g *StmtGen) Insert() *proto.NStmt {
 	return n
 }
 
+// LongInsert is an INSERT whose text runs to several kilobytes, with string
+// literals made of multi-byte characters at every byte alignment: wherever
+// the front end cuts its input into chunks, some literal straddles the cut.
+func (g *StmtGen) LongInsert() *proto.NStmt {
+	r := g.R
+	n := &proto.NStmt{Kind: "insert", Name: g.ident()}
+	w := r.Range(2, 4)
+	pieces := []string{"€", "é", "日", "𝄞", "ß", "x", " ", "\xe2\x82", "\xc3"}
+	for i, rows := 0, r.Range(20, 60); i < rows; i++ {
+		row := []proto.Val{}
+		for j := 0; j < w; j++ {
+			if j == 0 || r.Bool() {
+				b := []byte("abc"[:(i+j)%4])
+				for want := r.Range(5, 40); len(b) < want; {
+					b = append(b, pieces[r.Intn(len(pieces))]...)
+				}
+				row = append(row, proto.Str(string(b)))
+			} else {
+				row = append(row, g.lit())
+			}
+		}
+		n.Rows = append(n.Rows, row)
+	}
+	return n
+}
+
 func (g *StmtGen) Update() *proto.NStmt {
 	r := g.R
 	n := &proto.NStmt{Kind: "update", Name: g.ident()}
